@@ -45,7 +45,7 @@ def coq_members(ms):
 
 
 def coq_variant(v):
-    return "(mkv %s %s %s)" % tuple(coq_bool(x) for x in v)
+    return "(mkv %s %s %s %s)" % tuple(coq_bool(x) for x in v)
 
 
 EXN_CODE = {"TypeError": 0, "IndexError": 1, "KeyError": 2}
@@ -142,9 +142,28 @@ def run_probes(chk):
         jobs.append(job_for(tree, G.members_of(tree), [
             {"do": "vfs", "calls": [["obs", ZSEL + "/" + p] for p in paths]},
             {"do": "vfs_real", "calls": [["obs", TSEL + "/" + p] for p in paths]}]))
+    out_tree = [{"path": "a.txt", "kind": "file", "data": "alpha\n"}, {"path": "d", "kind": "dir"},
+                {"path": "d/b.txt", "kind": "file", "data": "beta\n"}]
+    out_calls = [[op, s] for s in OUTSIDE_SELECTORS for op in ("exists", "isdir", "stat")]
+    jobs.append(job_for(out_tree, G.members_of(out_tree), [{"do": "vfs", "calls": out_calls, "with_chain": True}],
+                        extra_root=SITE_FILES))
     res = impl_run(jobs)
     variant = []
     found = False
+    ro = res.pop()
+    if not ro["ok"]:
+        raise RuntimeError(ro["err"] + "\n" + ro.get("tb", ""))
+    ao = ro["res"]["actions"][0]
+    wrong = [(c, z, ch) for c, z, ch in zip(out_calls, ao.get("results", []), ao.get("chain", [])) if z != ch]
+    delegate = "results" in ao and not wrong
+    chk.count(("probe", "outside"))
+    if not delegate:
+        found = True
+        chk.violation({"what": "a selector that is neither the archive nor below it is looked up INSIDE the archive "
+                               "(VFSZip cuts len(archive name) characters off any selector) instead of being answered by "
+                               "the file system the archive lives in",
+                       "members": G.members_of(out_tree), "calls_archive_vs_site": wrong[:8]},
+                      tag="zip-selector-outside-archive")
     for tag, r in zip(PROBE_ORDER, res):
         if not r["ok"]:
             raise RuntimeError(r["err"] + "\n" + r.get("tb", ""))
@@ -159,7 +178,16 @@ def run_probes(chk):
                                    "from the archive view (VFSZip.populate_cache)",
                            "tree": tree, "members": G.members_of(tree), "paths": paths,
                            "archive_observations": za.get("results", za), "tree_observations": ra["results"]}, tag=tag)
-    return tuple(variant), found
+    return tuple(variant) + (delegate,), found
+
+
+# what else the site has next to the tree and the archive
+SITE_FILES = [{"path": "outside.txt", "data": "OUTSIDE\n"}, {"path": "outside.txt.abstract", "data": "about the site file\n"},
+              {"path": "other.zip", "data": G.nested_zip_bytes()}]
+
+# selectors that merely begin like the archive, site selectors, URL: selectors
+OUTSIDE_SELECTORS = [ZSEL + "a.txt", ZSEL + "d/", ZSEL + "..", "/outside.txt", "/", TSEL + "/a.txt", "/nowhere/x",
+                     "URL:http://example.org/", "URL:ab", "/XT.zi", "x" * len(ZSEL)]
 
 
 # ----------------------------------------------------------------------------
@@ -193,6 +221,8 @@ def part_k(chk, tier, variant=None):
         for p in sels:
             for op in rng.sample(list(VOPS), 2):
                 calls.append([op, ZSEL + ("/" + p if p else rng.choice(["", "/"]))])
+        for sout in rng.sample(OUTSIDE_SELECTORS, 5):
+            calls.append([rng.choice(list(VOPS)), sout])
         rng.shuffle(calls)
         # the archive side is asked in several orders, each on a fresh VFSZip (one instance = one request):
         # what an earlier lookup leaves behind must not change a later answer
@@ -201,19 +231,20 @@ def part_k(chk, tier, variant=None):
             o = list(sels)
             rng.shuffle(o)
             orders.append(o)
-        acts = [{"do": "index"}, {"do": "vfs", "calls": calls},
+        acts = [{"do": "index"}, {"do": "vfs", "calls": calls, "with_chain": True},
                 {"do": "vfs_real", "calls": [["obs", TSEL + ("/" + p if p else "")] for p in sels]}]
         for o in orders:
             acts.append({"do": "vfs", "calls": [["obs", ZSEL + ("/" + p if p else "")] for p in o]})
-        jobs.append(job_for(tree, members, acts, extra_root=[{"path": "outside.txt", "data": "OUTSIDE\n"}],
+        jobs.append(job_for(tree, members, acts, extra_root=SITE_FILES,
                             container=conts[i]))
         meta.append(("tree", tree, members, sels, calls, orders))
     for members in G.weird_archives(rng, nweird):
         names = sorted({c for m in members for c in m["raw"].split("/")} | {"a", "d", "l"})
         qs = G.weird_queries(rng, names)
         calls = [[rng.choice(list(VOPS)), ZSEL + rng.choice(["/", ""]) + q] for q in qs]
+        calls += [[rng.choice(list(VOPS)), sout] for sout in rng.sample(OUTSIDE_SELECTORS, 3)]
         jobs.append({"op": "c16", "tree": [], "members": members, "config": config_for(ZIP_FIRST),
-                     "actions": [{"do": "index"}, {"do": "vfs", "calls": calls}]})
+                     "actions": [{"do": "index"}, {"do": "vfs", "calls": calls, "with_chain": True}]})
         meta.append(("weird", None, members, qs, calls, None))
     res = impl_run_parallel(jobs, chunks=8)
     pre = []
@@ -233,11 +264,20 @@ def part_k(chk, tier, variant=None):
         nontriv = "exc" not in a[0] and len(a[0]["index"]) > 2
         chk.count(("index", json.dumps(members, sort_keys=True)), nontrivial=nontriv)
         if "exc" in a[1]:
-            vfs_cases.append("(((%s, ms_%d), (%d%%nat, [])), VRaised)" % (vlit, k, zl))
+            vfs_cases.append("(((%s, ms_%d), (%s, [])), VRaised)" % (vlit, k, coq_str(ZSEL)))
         else:
-            cl = coq_list("(%s, %s)" % (VOPS[op], coq_str(s)) for op, s in calls)
+            cl = coq_list("(%s, %s, %s)" % (VOPS[op], coq_str(s), coq_vres(op, ch))
+                          for (op, s), ch in zip(calls, a[1]["chain"]))
             rl = coq_list(coq_vres(op, x) for (op, s), x in zip(calls, a[1]["results"]))
-            vfs_cases.append("(((%s, ms_%d), (%d%%nat, %s)), VRes %s)" % (vlit, k, zl, cl, rl))
+            vfs_cases.append("(((%s, ms_%d), (%s, %s)), VRes %s)" % (vlit, k, coq_str(ZSEL), cl, rl))
+            # model-independent: a selector outside the archive is answered as the site answers it
+            for (op, s), x, ch in zip(calls, a[1]["results"], a[1]["chain"]):
+                if not (s == ZSEL or s.startswith(ZSEL + "/")) and x != ch:
+                    oracle_hits += 1
+                    found = True
+                    chk.violation({"what": "a selector that is neither the archive nor below it is answered from inside the archive",
+                                   "call": [op, s], "archive_vfs_answer": x, "site_answer": ch, "members": members},
+                                  tag="zip-selector-outside-archive")
             for (op, s), x in zip(calls, a[1]["results"]):
                 chk.count(("vfs", k, op, s), nontrivial=(x[0] == "ok" and x[1] is not False))
         vfs_meta.append(k)
@@ -307,7 +347,8 @@ def part_k(chk, tier, variant=None):
     errs = [e for e in (e1, e2, e3, e4, e5) if e]
     cov["correspondence"] = {
         "variant_detected": {"clear_invalid_paths_on_resolution": variant[0], "link_base_is_transcoded_name": variant[1],
-                             "dot_target_is_archive_root": variant[2]},
+                             "dot_target_is_archive_root": variant[2],
+                             "selectors_outside_the_archive_go_to_the_site": variant[3]},
         "archives": len(jobs), "tree_archives": ntrees, "ill_formed_archives": len(jobs) - ntrees,
         "index_cases": len(idx_cases), "vfs_call_sequences": len(vfs_cases),
         "vfs_calls": sum(len(mt[4]) for mt in meta), "reference_tree_cases": len(tree_cases),
@@ -411,7 +452,8 @@ def part_oracle(chk, tier):
     protos = gen.PROTOCOLS
     jobs, meta = [], []
     degenerate = G.degenerate_trees()
-    conts = G.containers(rng, ntrees) + [{"writer": w} for w in ("zipfile", "raw", "zipfile", "raw", "zipfile")][:len(degenerate)]
+    conts = G.containers(rng, ntrees) + [{"writer": "zipfile", "sfx": True}, {"writer": "raw", "comment": True}, {"writer": "zipfile"},
+                                        {"writer": "raw", "sfx": True, "store_all": True}, {"writer": "zipfile", "comment": True}][:len(degenerate)]
     for i in range(ntrees + len(degenerate)):
         big = ("bigfiles",) if i % 2 == 0 else ()
         if tier == "thorough" and i % 8 == 0:
@@ -491,7 +533,7 @@ def part_oracle(chk, tier):
                         tacts.append({"do": "req", "data": gen.lat(d1), "tls": tls})
                         zacts.append({"do": "req", "data": gen.lat(d2), "tls": tls})
                         plan2.append((p, proto, gp, len(zacts) - 1, gen.lat(d1), gen.lat(d2), tls))
-            common_kw = dict(extra_root=[{"path": "outside.txt", "data": "OUTSIDE\n"}],
+            common_kw = dict(extra_root=SITE_FILES,
                              cwd_files=[{"path": "mail.mbox", "data": G.MBOX.replace("one", "CWD-OUTSIDE")}])
             common_kw.update(container=conts[i], infolist=False)
             jobs.append(job_for(tree, members, zacts, handlers=handlers, **common_kw))
@@ -734,10 +776,10 @@ def replay(path):
             root_z, _ = gen.request_bytes("gopher", ZSEL)
             acts_z = [{"do": "req", "data": gen.lat(root_z), "tls": False}] + acts_z + [rw] + acts_z
             acts_t = [{"do": "req", "data": r["request_tree_latin1"], "tls": r["tls"]}] + acts_t + [rw] + acts_t
-        jz = job_for(tree, members, acts_z, handlers=handlers, extra_root=[{"path": "outside.txt", "data": "OUTSIDE\n"}],
+        jz = job_for(tree, members, acts_z, handlers=handlers, extra_root=SITE_FILES,
                      container=r.get("container"), infolist=False)
         jt = job_for(tree, members, acts_t, handlers=without_real_only(handlers),
-                     extra_root=[{"path": "outside.txt", "data": "OUTSIDE\n"}], container=r.get("container"), infolist=False)
+                     extra_root=SITE_FILES, container=r.get("container"), infolist=False)
         rz, rt = impl_run([jz, jt])
         for x in (rz, rt):
             if not x["ok"]:
